@@ -3,6 +3,9 @@
 // Python generators in /verif/lib; this program draws nothing by itself except from PRNG streams whose seeds are in
 // the plan. The event log goes to stdout (one record per line), SimGrid's own log to stderr.
 #include "s4usim.hpp"
+#ifdef S4USIM_DETSCHED
+#include "detsched.h"
+#endif
 
 using namespace vs;
 
@@ -41,6 +44,9 @@ void emit(const char* fmt, ...)
   LOG.push_back('\n');
 }
 
+#ifdef S4USIM_DETSCHED
+static bool detsched_on = false;
+#endif
 static bool flushed = false;
 void flush_log()
 {
@@ -501,6 +507,23 @@ int main(int argc, char** argv)
     simgrid_verif_reorder = h2_reorder;
   if (opts.count("lmmmon") && opts["lmmmon"] == "1")
     lmm_monitor_start();
+#ifdef S4USIM_DETSCHED
+  if (opts.count("detsched") && opts["detsched"] != "off") {
+    // engine E inside engine A (C02): the real worker threads of the context factory (Parmap workers of raw/boost, one
+    // thread per actor for the thread factory) are parked and released one at a time by the seeded scheduler.
+    // Enabled after the Engine exists and before the first actor is created; H3 adds yield points in Parmap
+    std::string ds   = opts["detsched"];
+    size_t c         = ds.find(':');
+    uint64_t dseed   = strtoull(ds.substr(0, c).c_str(), nullptr, 10);
+    std::string spec = c == std::string::npos ? "" : ds.substr(c + 1);
+    if (detsched_enable_spec(dseed, spec.c_str()) != 0) {
+      fprintf(stderr, "bad detsched spec %s\n", spec.c_str());
+      _exit(3);
+    }
+    simgrid_verif_yield = detsched_yield;
+    detsched_on         = true;
+  }
+#endif
   emit("S %ld %a begin mode=%s", SEQ++, 0.0, walk ? "walk" : "native");
   // operations executed by maestro itself before the simulation starts (workflows built in main())
   {
@@ -533,6 +556,12 @@ int main(int argc, char** argv)
   }
   emit("S %ld %a end h2perm=%ld", SEQ++, now(), h2_permuted);
   final_report();
+#ifdef S4USIM_DETSCHED
+  if (detsched_on)
+    fprintf(stderr, "DETSCHED trace=%016llx steps=%ld switches=%ld choice_points=%ld threads=%d max_runnable=%d\n",
+            detsched_hash(), detsched_steps(), detsched_switches(), detsched_choice_points(), detsched_threads_created(),
+            detsched_max_runnable());
+#endif
   flush_log();
   fflush(stderr);
   _exit(rc);
